@@ -243,6 +243,8 @@ def ref_getitem(v, items):
         return [ref_getitem(x, rest) for x in v[slice(a, b, c)]]
     out = []
     for i in head[1]:
+        if i is None:
+            out.append(None); continue
         j = i + (len(v) if i < 0 else 0)
         if not 0 <= j < len(v):
             raise Refused('index out of range')
@@ -260,9 +262,24 @@ def gen_items(depth):
     items, cmd = [], []
     narr = 0
     for d in range(random.randint(1, depth)):
-        k = random.choice(['at', 'range', 'range', 'array'])
-        if k == 'array' and narr:
+        k = random.choice(['at', 'range', 'range', 'array', 'missing'])
+        if k in ('array', 'missing') and narr:
             k = 'range'
+        if k == 'missing':
+            narr += 1
+            idx = [random.choice([None, None, -2, -1, 0, 1, 2]) for _ in range(random.randint(1, 3))]
+            if all(i is not None for i in idx):
+                idx[0] = None
+            # a SliceMissing64 item: index into the non-missing entries + the array of those entries
+            dense = [i for i in idx if i is not None]
+            pos, t = [], 0
+            for i in idx:
+                if i is None:
+                    pos.append(-1)
+                else:
+                    pos.append(t); t += 1
+            items.append(('array', idx)); cmd.append('missing %s array %s' % (ints(pos), ints(dense)))
+            continue
         if k == 'at':
             i = random.randint(-3, 3); items.append(('at', i)); cmd.append('at %d' % i)
         elif k == 'range':
